@@ -1,124 +1,152 @@
 (* C12 model: the AUTO_INCREMENT counter of a table, as src/database/dml/insert.rs
-   (execute_insert_internal) handles it.  Hand-written (the code is ~40 lines inside a 1000-line
-   function over Vec<OwnedValue>, outside the tools/rs2v.py subset); tied to the compiled code by
-   the correspondence run only.  Definitions only, no proofs.
+   (execute_insert_internal) handles it after the repairs a94d684, 66de927, 6d846b9, 94b952d.
+   Hand-written (the code is ~60 lines inside a 1000-line function over Vec<OwnedValue>, outside
+   the tools/rs2v.py subset); tied to the compiled code by the correspondence run only.
+   Definitions only, no proofs.
 
-   The mechanism (line numbers of insert.rs):
-     389-402  cur := header.auto_increment(); max := cur          (header = page 0 of the table file)
-     538-562  for each row:  id NULL/absent -> cur := cur.checked_add(1)? ; id := cur as i64 ;
-                                               if cur > max { max := cur }
-                             id = Int(v)    -> v < 0 ? bail : if (v as u64) > max { max := v as u64 }
-     564-1102 the row is validated, checked against the unique indexes and written; any error
-              returns from the function at once (rows written before stay in the table)
-     1104-1120 after the loop only:  if max > 0 && max > header.auto_increment() { header := max }
-   DELETE, BEGIN/COMMIT/ROLLBACK (transaction.rs undo_write_entry deletes the rows, nothing else)
-   and close + Database::open never write the counter; open reads it back from page 0.
+   The mechanism (insert.rs):
+     cur := header.auto_increment(); max := cur; persisted := cur      (header = page 0 of the table file)
+     limit := i16::MAX / i32::MAX / i64::MAX by the id column's type (Int2 / Int4 / anything else)
+     for each row:
+       id NULL/absent -> cur := cur.checked_add(1).filter(<= limit)?  (else Err "auto_increment overflow")
+                         id := cur as i64 ; if cur > max { max := cur }
+       id = Int(v)    -> v < 0 ? bail ; v > limit ? bail ;
+                         if v > max { max := v } ; if v > cur { cur := v }
+       if max > persisted { header := max(header, max) ; persisted := max }     (written at once)
+       the row is validated, checked against the unique indexes and written; any error returns
+       from the function at once (rows written before stay in the table)
+     after the loop: if max > 0 && max > header { header := max }               (now a no-op)
+   With a single connection `persisted` equals the header value throughout, so one variable [hdr]
+   stands for both.  DELETE, BEGIN/COMMIT/ROLLBACK (transaction.rs undo_write_entry deletes the
+   rows, nothing else) and close + Database::open never write the counter; open reads it back
+   from page 0.
 
-   Two more ways of inserting rows never look at the counter at all (src/database/batch.rs):
-     insert_cached   what a PreparedStatement runs from its SECOND execution on
-                     (database.rs execute_with_cached_plan: the first execution goes through
-                     execute_insert_internal and caches a plan); needs one parameter per column
-     insert_batch    the bulk-load API
-   Both write the id values as given - NULL stays NULL, nothing is generated - and leave the
-   header counter alone ([Bulk] below).  Only insert_cached is exercised by the correspondence
-   run (rows loaded by insert_batch are not reliably visible to SELECT, so what the column holds
-   cannot be observed there); for insert_batch [Bulk] is a reading of the code only. *)
+   Other insert paths:
+     PreparedStatement   tables with an AUTO_INCREMENT column no longer get a cached plan
+                         (database.rs execute_with_cached_plan): every execution is an ordinary
+                         single-row INSERT through execute_insert_internal
+     insert_batch        (src/database/batch.rs) writes the ids as given - NULL stays NULL, no range
+                         check - and, after the rows, raises the header counter to the largest
+                         positive id of the call ([Bulk] below; successful calls only) *)
 From Coq Require Import ZArith List Bool.
 From TV Require Import Lib.MachInt.
 Import ListNotations.
 Open Scope Z_scope.
+
+(* width of the id column's integer type: 16 = SMALLINT (Int2), 32 = INTEGER (Int4), anything else
+   is treated as the code treats it: 64 bits *)
+Definition col_bits (w : Z) : Z := if w =? 16 then 16 else if w =? 32 then 32 else 64.
+Definition limit (w : Z) : Z := 2 ^ (col_bits w - 1) - 1.
+(* RecordBuilder::set_int_auto: `value as i16` / `value as i32` / the i64 itself *)
+Definition stored (w id : Z) : Z := wrap_s (col_bits w) id.
 
 (* the id column of one row of an INSERT statement *)
 Inductive row := RNull | RInt (v : Z).        (* NULL / column absent,  or an explicit i64 *)
 
 Inductive assigned :=
 | AGen (cur' max' id : Z)    (* id generated: new cur, new max, the i64 written into the row *)
-| AExp (max' id : Z)         (* explicit non-negative id kept *)
-| AErr.                      (* checked_add overflow / negative explicit id: the statement returns Err *)
+| AExp (cur' max' id : Z)    (* explicit id in range kept; it raises max and cur *)
+| AErr.                      (* overflow past the column type's maximum / negative or out-of-range
+                                explicit id: the statement returns Err, no id is produced *)
 
-Definition assign (cur max : Z) (r : row) : assigned :=
+Definition assign (lim cur max : Z) (r : row) : assigned :=
   match r with
   | RNull =>
       let c := cur + 1 in
-      if in_u 64 c                                   (* u64::checked_add *)
+      if in_u 64 c && (c <=? lim)                    (* u64::checked_add, .filter(<= limit) *)
       then AGen c (if c >? max then c else max) (wrap_s 64 c)    (* `cur as i64` *)
       else AErr
   | RInt v =>
-      if v <? 0 then AErr else AExp (if v >? max then v else max) v
+      if v <? 0 then AErr
+      else if v >? lim then AErr
+      else AExp (if v >? cur then v else cur) (if v >? max then v else max) v
   end.
 
 Inductive stmt_end := Done (max : Z) | Failed.
 
 (* The row loop.  [ext] = Some k: the k-th remaining row fails for a reason outside this model
    (constraint on another column, unique index hit, B-tree error ...) after its id was assigned
-   and before it is written; None: no such failure.  Result: the rows written, in order, as
-   (id, generated?) and how the loop ended. *)
-Fixpoint stmt_loop (rows : list row) (ext : option nat) (cur max : Z) : list (Z * bool) * stmt_end :=
+   and the header written, before the row itself is written; None: no such failure.
+   Result: the rows written, in order, as (id, generated?), how the loop ended, the header counter. *)
+Fixpoint stmt_loop (lim : Z) (rows : list row) (ext : option nat) (cur max hdr : Z)
+  : list (Z * bool) * stmt_end * Z :=
   match rows with
-  | [] => ([], Done max)
+  | [] => ([], Done max, hdr)
   | r :: t =>
-      match assign cur max r with
-      | AErr => ([], Failed)
+      match assign lim cur max r with
+      | AErr => ([], Failed, hdr)
       | AGen c m id =>
+          let hdr' := if m >? hdr then m else hdr in
           match ext with
-          | Some O => ([], Failed)
-          | _ => let '(w, e) := stmt_loop t (option_map Nat.pred ext) c m in ((id, true) :: w, e)
+          | Some O => ([], Failed, hdr')
+          | _ => let '(w, e, h) := stmt_loop lim t (option_map Nat.pred ext) c m hdr' in ((id, true) :: w, e, h)
           end
-      | AExp m id =>
+      | AExp c m id =>
+          let hdr' := if m >? hdr then m else hdr in
           match ext with
-          | Some O => ([], Failed)
-          | _ => let '(w, e) := stmt_loop t (option_map Nat.pred ext) cur m in ((id, false) :: w, e)
+          | Some O => ([], Failed, hdr')
+          | _ => let '(w, e, h) := stmt_loop lim t (option_map Nat.pred ext) c m hdr' in ((id, false) :: w, e, h)
           end
       end
   end.
 
-(* one INSERT statement on a table whose header counter is ai:
+(* one INSERT statement on a table (id column width w) whose header counter is ai:
    (new header counter, rows written, statement returned Ok?) *)
-Definition insert_stmt (ai : Z) (rows : list row) (ext : option nat) : Z * list (Z * bool) * bool :=
-  let '(w, e) := stmt_loop rows ext ai ai in
+Definition insert_stmt (w ai : Z) (rows : list row) (ext : option nat) : Z * list (Z * bool) * bool :=
+  let '(wr, e, h) := stmt_loop (limit w) rows ext ai ai ai in
   match e with
-  | Done m => (if (m >? 0) && (m >? ai) then m else ai, w, true)
-  | Failed => (ai, w, false)
+  | Done m => (if (m >? 0) && (m >? h) then m else h, wr, true)
+  | Failed => (h, wr, false)
   end.
 
-(* insert_cached / insert_batch: the integer ids written, as given; rows from the [ext]-th on are
-   not written (the call failed there) *)
-Fixpoint bulk_written (rows : list row) (ext : option nat) : list (Z * bool) :=
+(* insert_batch (a call that returns Ok): the integer ids written, as given, and the largest
+   positive one *)
+Fixpoint bulk_written (rows : list row) : list (Z * bool) :=
   match rows with
   | [] => []
-  | r :: t =>
-      match ext with
-      | Some O => []
-      | _ =>
-          match r with
-          | RNull => bulk_written t (option_map Nat.pred ext)
-          | RInt v => (v, false) :: bulk_written t (option_map Nat.pred ext)
-          end
-      end
+  | RNull :: t => bulk_written t
+  | RInt v :: t => (v, false) :: bulk_written t
+  end.
+Fixpoint bulk_max (rows : list row) : Z :=
+  match rows with
+  | [] => 0
+  | RNull :: t => bulk_max t
+  | RInt v :: t => Z.max v (bulk_max t)
   end.
 
 (* histories *)
 Inductive op :=
 | Insert (rows : list row) (ext : option nat)
-| Bulk (rows : list row) (ext : option nat)
+| Bulk (rows : list row)
 | Delete | TxBegin | TxCommit | TxRollback | Reopen.
 
-Definition step (ai : Z) (o : op) : Z * list (Z * bool) :=
+Definition step (w ai : Z) (o : op) : Z * list (Z * bool) :=
   match o with
-  | Insert rows ext => let '(ai', w, _) := insert_stmt ai rows ext in (ai', w)
-  | Bulk rows ext => (ai, bulk_written rows ext)
+  | Insert rows ext => let '(ai', wr, _) := insert_stmt w ai rows ext in (ai', wr)
+  | Bulk rows => (let m := bulk_max rows in if m >? ai then m else ai, bulk_written rows)
   | _ => (ai, [])
   end.
 
-(* final counter and the trace = every (id, generated?) written to the column, in time order *)
-Fixpoint run (ai : Z) (h : list op) : Z * list (Z * bool) :=
+(* final counter and the trace = every (id, generated?) written to the column, in time order
+   (ids as INSERT / RETURNING sees them; [trace_w] below is what the column stores) *)
+Fixpoint run (w ai : Z) (h : list op) : Z * list (Z * bool) :=
   match h with
   | [] => (ai, [])
-  | o :: t => let '(ai', w) := step ai o in let '(aif, tr) := run ai' t in (aif, w ++ tr)
+  | o :: t => let '(ai', wr) := step w ai o in let '(aif, tr) := run w ai' t in (aif, wr ++ tr)
   end.
 
-Definition counter (h : list op) : Z := fst (run 0 h).     (* a new table has counter 0 *)
-Definition trace (h : list op) : list (Z * bool) := snd (run 0 h).
+Definition counter (w : Z) (h : list op) : Z := fst (run w 0 h).     (* a new table has counter 0 *)
+Definition trace (w : Z) (h : list op) : list (Z * bool) := snd (run w 0 h).
+Definition trace_w (w : Z) (h : list op) : list (Z * bool) :=
+  map (fun x => (stored w (fst x), snd x)) (trace w h).
+
+(* every explicit id loaded through insert_batch fits the id column's type (insert_batch itself
+   does not check; what it stores otherwise is the truncated value) *)
+Definition bulk_fits (w : Z) (o : op) : bool :=
+  match o with
+  | Bulk rows => forallb (fun x => in_s (col_bits w) (fst x)) (bulk_written rows)
+  | _ => true
+  end.
 
 (* ------------------------------------------------------------------ the property (C12)
    every generated value differs from every value the column held before (explicit or generated,
@@ -138,72 +166,17 @@ Fixpoint fi_chk (pre tr : list (Z * bool)) : bool :=
   end.
 Definition fresh_increasing_chk (tr : list (Z * bool)) : bool := fi_chk [] tr.
 
-(* ------------------------------------------------------------------ recorded defect classes
-   (known findings; each is a regime of the code above in which the property fails)
-     3  an id is generated when cur + 1 > i64::MAX: `cur as i64` wraps to a negative value
-        (checked_add only guards u64::MAX)
-     1  an id is generated while max > cur, i.e. after an explicit id above the running counter
-        earlier in the SAME statement: cur keeps counting from the old value and can reach it
-     2  a statement fails after writing a row whose id is above the header counter: the rows stay
-        (no statement atomicity) but the counter is only written after the loop, so the ids come
-        again
-     4  insert_cached / insert_batch writes an explicit id above the header counter: the counter
-        does not learn about it and generates it later *)
-Fixpoint gen_class (rows : list row) (ext : option nat) (cur max : Z) : Z :=
-  match rows with
-  | [] => 0
-  | r :: t =>
-      match ext with
-      | Some O => 0
-      | _ =>
-          let here := match r with
-                      | RNull => if 2 ^ 63 <=? cur + 1 then 3 else if max >? cur then 1 else 0
-                      | RInt _ => 0
-                      end in
-          if here =? 0 then
-            match assign cur max r with
-            | AErr => 0
-            | AGen c m _ => gen_class t (option_map Nat.pred ext) c m
-            | AExp m _ => gen_class t (option_map Nat.pred ext) cur m
-            end
-          else here
-      end
-  end.
+(* ------------------------------------------------------------------ history of the defect classes
+   Before the repairs the code had five regimes in which the property failed (known findings
+   F-C12-1..5, all fixed; their witnesses are re-run on every check):
+     1  id generated after an explicit id above the running counter in the same statement
+        (fixed by a94d684: explicit ids raise cur)
+     2  statement failing after it wrote ids above the header counter (66de927: header written
+        as soon as ids are handed out)
+     3  generation past i64::MAX wrapped to i64::MIN           (6d846b9: Err at the type's maximum)
+     4  explicit ids written by insert_cached / insert_batch not folded into the counter
+        (94b952d: no cached plan for AUTO_INCREMENT tables, insert_batch raises the counter)
+     5  ids beyond the range of a SMALLINT / INTEGER id column stored truncated   (6d846b9)
+   No class is left. *)
 
-Definition stmt_class (ai : Z) (rows : list row) (ext : option nat) : Z :=
-  let g := gen_class rows ext ai ai in
-  if g =? 0 then
-    match stmt_loop rows ext ai ai with
-    | (w, Failed) => if existsb (fun x => fst x >? ai) w then 2 else 0
-    | (_, Done _) => 0
-    end
-  else g.
-
-Fixpoint known_class_from (ai : Z) (h : list op) : Z :=
-  match h with
-  | [] => 0
-  | Insert rows ext :: t =>
-      let c := stmt_class ai rows ext in
-      if c =? 0 then known_class_from (fst (step ai (Insert rows ext))) t else c
-  | Bulk rows ext :: t =>
-      if existsb (fun x => fst x >? ai) (bulk_written rows ext) then 4 else known_class_from ai t
-  | _ :: t => known_class_from ai t
-  end.
-Definition known_class (h : list op) : Z := known_class_from 0 h.
-
-(* ------------------------------------------------------------------ column width
-   The counter and the ids above are u64 / i64.  The id column may be narrower (SMALLINT 16,
-   INTEGER 32, BIGINT 64 bits): RecordBuilder::set_int_auto stores `value as i16` / `value as i32`
-   without a range check, so what the column holds (and SELECT shows) is the wrapped value, while
-   RETURNING shows the id above. *)
-Definition stored (w id : Z) : Z := wrap_s w id.
-Definition trace_w (w : Z) (h : list op) : list (Z * bool) :=
-  map (fun x => (stored w (fst x), snd x)) (trace h).
-(*   5  an id outside the range of the id column's integer type is written: it is stored wrapped *)
-Definition known_class_w (w : Z) (h : list op) : Z :=
-  let c := known_class h in
-  if c =? 0 then (if forallb (fun x => in_s w (fst x)) (trace h) then 0 else 5) else c.
-
-Definition is_insert (o : op) : bool := match o with Insert _ _ | Bulk _ _ => true | _ => false end.
-Definition single_row (h : list op) : Prop :=
-  forall rows ext, In (Insert rows ext) h -> (length rows <= 1)%nat.
+Definition is_insert (o : op) : bool := match o with Insert _ _ | Bulk _ => true | _ => false end.
